@@ -87,6 +87,10 @@ Catalogue == {
   Case("repeat-first", DynBlockWith(1, 1, 1, 19, [DCl EXCEPT ![2] = 3, ![16] = 3], << <<16, 0>>, <<18, 51>> >> \o Tail(DItems), DToks, DLit, DDist),
        "reject", "repeat-no-prev"),      \* well formed apart from the leading 16: the lengths still add up
   Case("overrun", DynBlock(1, ReplaceAt(DItems, 4, <<18, 127>>), DToks), "reject", "overrun"),
+  \* the last item is a repeat that runs two lengths past HLIT + HDIST; cut off at the announced size the
+  \* two codes would be complete and the rest of the block well formed
+  Case("overrun-by-final-repeat", DynBlockWith(1, 1, 1, 19, [DCl EXCEPT ![2] = 3, ![16] = 3], ReplaceAt(DItems, 8, <<16, 0>>), DToks, DLit, DDist),
+       "reject", "overrun"),
   Case("no-eob", DynHdrFields(1, 1, 1, 19, DCl, << <<18, 54>>, <<1, 0>>, <<18, 127>>, <<18, 42>>, <<1, 0>>, <<1, 0>>, <<1, 0>> >>)
                  \o << F(0, 8) >>, "reject", "no-eob"),
   Case("lit-incomplete", DynBlock(1, ReplaceAt(DItems, 2, <<2, 0>>), DToks), "reject", "lit-code"),
